@@ -15,6 +15,7 @@ WITNESS = [
     ("sub", "ghost-inject", r"\breturn\s+true\b", "{ proof { assert(vx_grants == 1); }   // #returns_true_only_after_its_own_successful_withdrawal [C08]\n return true }", None),
     ("sub", "ghost-inject", r"\breturn\s+false\b", "{ proof { assert(vx_grants == 0); }   // #returns_false_without_withdrawing [C08]\n return false }", None),
 ]
+MUT = [("sub", "R16-mut-self", r"\bself\b", "self_", None), ("inject", None, "start", "let mut self_ = self;")]
 UNIT = dict(
     serves=["C08", "C13"],
     files={"budget": RT + "budget.rs", "aimd": CORE + "aimd.rs", "alg": AD + "algorithm.rs"},
@@ -22,6 +23,27 @@ UNIT = dict(
     rules=[("R1",)],
     extra_params=[],
     fns={
+        "AimdConfig::default@Default": dict(file="aimd"),
+        "AimdConfig::new": dict(file="aimd"),
+        "AimdConfig::with_initial_limit": dict(file="aimd", rules=MUT),
+        "AimdConfig::with_min_limit": dict(file="aimd", rules=MUT),
+        "AimdConfig::with_max_limit": dict(file="aimd", rules=MUT),
+        "AimdConfig::with_increase_by": dict(file="aimd", rules=MUT),
+        "AimdConfig::with_decrease_factor": dict(file="aimd", rules=MUT),
+        "Aimd::new": dict(file="alg"),
+        "Aimd::record_success@ConcurrencyAlgorithm": dict(file="alg", rules=[("sub", "R10-cmp", r"latency > self\.latency_threshold", "latency.nanos > self.latency_threshold.nanos", 1)]),
+        "AimdBudget::new": dict(rules=[
+            ("sub", "R7-new", r"AtomicU64::new\(max_budget as u64\)", "AtomicU64::new(Ghost((vx_ctl, deposit_amount as u64, withdraw_amount as u64, Ghost(max_budget as nat))), max_budget as u64, Tracked(GB { granted: 0, deposited: 0 }))", 1),
+            ("sub", "ghost-field", r"limit_controller: AimdController::new\(config\),", "limit_controller: vx_ctl,", 1),
+            ("inject", r"Self \{", "before", "let vx_ctl = AimdController::new(config);", 1),
+            ("sub", "ghost-field", r"withdraw_amount: withdraw_amount as u64,", "withdraw_amount: withdraw_amount as u64, initial: Ghost(max_budget as nat),", 1),
+        ]),
+        "Vegas::new": dict(file="alg", rules=[
+            ("sub", "R7-new", r"AtomicUsize::new\(initial_limit\.clamp\(min_limit, max_limit\)\)", "AtomicUsize::new(Ghost((min_limit, max_limit)), initial_limit.clamp(min_limit, max_limit), Tracked(()))", 1),
+            ("sub", "R7-new", r"AtomicU64::new\(u64::MAX\)", "AtomicU64::new(Ghost(()), u64::MAX, Tracked(()))", 1),
+            ("sub", "R7-new", r"AtomicU64::new\(0\)", "AtomicU64::new(Ghost(()), 0, Tracked(()))", 1),
+            ("sub", "R7-new", r"AtomicUsize::new\(0\)", "AtomicUsize::new(Ghost(()), 0, Tracked(()))", 1),
+        ]),
         "Vegas::adjust_limit": dict(file="alg", rules=[
             ("R14", "queue_estimate", ["smoothed_rtt", "min_rtt", "current_limit"]),
             ("R7", [NOOP, NOOP, NOOP, NOOP, "  // #limit_stays_within_bounds [C13]"])]),
